@@ -458,37 +458,20 @@ unsafe fn do_spawn<F: PreExec>(
     let child_pid = rusl::process::fork()?;
     // From this point we're two processes
     if child_pid == 0 {
-        // Executing as child process
+        // Executing as child process, nothing in here may return to the caller:
+        // every failure up to and including `execve` is reported through the pipe before exiting
         drop(read_pipe);
-        if let Some(fd) = theirs.stdin.fd() {
-            rusl::unistd::dup2(fd, STDIN)?;
-        }
-        if let Some(fd) = theirs.stdout.fd() {
-            rusl::unistd::dup2(fd, STDOUT)?;
-        }
-        if let Some(fd) = theirs.stderr.fd() {
-            rusl::unistd::dup2(fd, STDERR)?;
-        }
-        if let Some(cwd) = cwd {
-            rusl::unistd::chdir(cwd)?;
-        }
-        if let Some(uid) = uid {
-            rusl::unistd::setuid(uid)?;
-        }
-        if let Some(gid) = gid {
-            rusl::unistd::setgid(gid)?;
-        }
-        if let Some(pgroup) = pgroup {
-            rusl::unistd::setpgid(0, pgroup)?;
-        }
-        for closure in closures {
-            closure.run()?;
-        }
-        let Err(e) = rusl::process::execve(bin, argv, envp) else {
-            // execve only returns on error.
-            unreachable_unchecked();
+        let e: Error = match child_pre_exec(&theirs, closures, cwd, uid, gid, pgroup) {
+            Ok(()) => {
+                let Err(e) = rusl::process::execve(bin, argv, envp) else {
+                    // execve only returns on error.
+                    unreachable_unchecked();
+                };
+                e.into()
+            }
+            Err(e) => e,
         };
-        let code: [u8; 4] = if let Some(code) = e.code {
+        let code: [u8; 4] = if let Error::Os { code, .. } = e {
             code.raw().to_be_bytes()
         } else {
             rusl::process::exit(1)
@@ -545,6 +528,43 @@ unsafe fn do_spawn<F: PreExec>(
             }
         }
     }
+}
+
+/// The steps a freshly forked child performs before `execve`, in order.
+/// Runs in the child, an error must be reported to the parent, never returned to the caller of `spawn`.
+fn child_pre_exec<F: PreExec>(
+    theirs: &ChildPipes,
+    closures: &mut [F],
+    cwd: Option<&UnixStr>,
+    uid: Option<UidT>,
+    gid: Option<GidT>,
+    pgroup: Option<PidT>,
+) -> Result<()> {
+    if let Some(fd) = theirs.stdin.fd() {
+        rusl::unistd::dup2(fd, STDIN)?;
+    }
+    if let Some(fd) = theirs.stdout.fd() {
+        rusl::unistd::dup2(fd, STDOUT)?;
+    }
+    if let Some(fd) = theirs.stderr.fd() {
+        rusl::unistd::dup2(fd, STDERR)?;
+    }
+    if let Some(cwd) = cwd {
+        rusl::unistd::chdir(cwd)?;
+    }
+    if let Some(uid) = uid {
+        rusl::unistd::setuid(uid)?;
+    }
+    if let Some(gid) = gid {
+        rusl::unistd::setgid(gid)?;
+    }
+    if let Some(pgroup) = pgroup {
+        rusl::unistd::setpgid(0, pgroup)?;
+    }
+    for closure in closures {
+        closure.run()?;
+    }
+    Ok(())
 }
 
 /// Spawns a process with the provided arguments. On no arguments, the binary will be set as the first
